@@ -63,6 +63,30 @@ unsafe_builtins = {
 }
 
 
+# Attribute names that lead out of the sandbox without a dunder:
+# generator/coroutine/traceback introspection reaches interpreter frames
+# (and from them the real builtins), str.format() looks up arbitrary
+# attributes named in the format string.
+unsafe_attributes = {
+    'gi_frame',
+    'gi_code',
+    'gi_yieldfrom',
+    'cr_frame',
+    'cr_code',
+    'ag_frame',
+    'ag_code',
+    'tb_frame',
+    'tb_next',
+    'f_back',
+    'f_builtins',
+    'f_code',
+    'f_globals',
+    'f_locals',
+    'format',
+    'format_map',
+}
+
+
 class SecurityError(RuntimeError):
     """Raised when an expression or context contains unauthorized patterns."""
 
@@ -210,8 +234,11 @@ def _check_safe_eval_cached(
         if isinstance(node, (ast.Raise, ast.Try, ast.ExceptHandler)):
             raise SecurityError(f"Exception logic forbidden: {type(node).__name__}")
 
-        if isinstance(node, ast.Attribute) and node.attr.startswith('__'):
-            raise SecurityError(f"Dunder access prohibited: .{node.attr}")
+        if isinstance(node, ast.Attribute) and (
+            node.attr.startswith('__') or node.attr in unsafe_attributes
+        ):
+            kind = 'Dunder' if node.attr.startswith('__') else 'Unsafe attribute'
+            raise SecurityError(f"{kind} access prohibited: .{node.attr}")
 
         if isinstance(node, ast.Name):
             if isinstance(node.ctx, ast.Load) and node.id not in context:
